@@ -3,6 +3,7 @@ import Monorail.Driver.C01
 import Monorail.Driver.C03
 import Monorail.Driver.C11
 import Monorail.Driver.Exec
+import Monorail.Driver.Store
 open Lean Monorail.Driver
 
 def dispatch (j : Json) : Except String Json := do
@@ -13,6 +14,7 @@ def dispatch (j : Json) : Except String Json := do
   | "dag" => handleDag j
   | "c11" => handleC11 j
   | "exec" => handleExec j
+  | "store" => handleStore j
   | "execcheck" => handleExecCheck j
   | "groups" => handleGroups j
   | "ping" => pure (Json.mkObj [("pong", true)])
